@@ -242,9 +242,12 @@ func (db *Center) SuffrageProofByBlockHeight(height base.Height) (base.SuffrageP
 					return j, true, nil
 				}
 			}
-		}
 
-		lastheight = temps[len(temps)-1].Height() - 1
+			// NOTE no proof in the temps up to height; the proof is the last one
+			// under the temps. If height is already under the temps, height
+			// itself should be asked to permanent database.
+			lastheight = temps[len(temps)-1].Height() - 1
+		}
 	}
 
 	proof, found, err := db.perm.SuffrageProofByBlockHeight(lastheight)
